@@ -12,6 +12,12 @@ CLAIMS = {
  'C07': dict(text="AM theorems (write effect independent of stability level, committed level never weaker than requested, FILE_SYNC when the option is off) and WAL-model theorems (recovered = prefix, flushed transactions survive) + crash-image correspondence on mixes of UNSTABLE/DATA_SYNC/FILE_SYNC writes, COMMITs and metadata operations with the option on and off: admissible prefix window per crash point (COMMIT and stable operations are durability points), loss only as a suffix, write verifier constant within an instance and different after recovery.",
              design="4/C07", technique="Coq proofs on reference and WAL models + crash-image enumeration with durability windows",
              note="Trusted: as C01; the verifier clause is checked only by observation (it depends on the clock)."),
+ 'C17': dict(text="The transliteration of simple/ (explicit uint64 wrap-around) refines the specification '30 files of at most 4096 bytes' for all inode numbers, offsets, counts and sizes below 2^64 over whole histories (C17_simple_refines_history), SETATTR's allocation is bounded by one block; journal theorems give all-or-nothing and durability per transaction. simple.Nfs is compared with BOTH extracted servers on boundary-dense calls and its crash images are judged against the specification states within the acknowledgement window. Linearizability of concurrent requests is not covered (partial).",
+             design="4/C17", technique="Coq refinement proof (transliteration -> spec) + differential execution + crash-image enumeration",
+             note="Trusted: hand transliteration (tied by the differential run), WAL model, extraction. Concurrency not covered."),
+ 'C18': dict(text="KM laws (multi-put installs all pairs, last writer wins within a call, other keys untouched, get returns the latest put) + journal theorems (crash = prefix of transactions, flushed = durable). kvs.KVS is compared with the extracted KM on generated calls including both boundaries of the key range, and every key's block in every crash image must equal KM after a prefix of the calls containing all acknowledged ones.",
+             design="4/C18", technique="Coq proofs on the store model and WAL model + differential execution + crash-image enumeration",
+             note="Trusted: KM, WAL model, extraction. Concurrent callers not exercised."),
  'C02': dict(text="Laws of the reference file system AM proved in Coq for all states, calls and hints (a failing call is the identity, read-only procedures are the identity, unsupported procedures and restarts have no effect) + the implementation is compared with the extracted AM reply by reply and with the extracted abstraction of its logical disk after every RPC of generated sequences (all 22 procedures, stale handles, names of every length class, offsets at indirection boundaries, restarts, unstable on/off). The refinement Go code -> AM is sampled, not proved (C02_partial).",
              design="4/C02", technique="Coq laws of the reference model + differential execution of extracted model against the real server",
              note="Trusted: AM as the statement of NFSv3 semantics (Appendix A of DESIGN.md), abs_disk, extraction, OCaml glue; refinement is sampled."),
